@@ -1490,7 +1490,14 @@ func TestRealReconnect(t *testing.T) {
 func TestRealSlowHandler(t *testing.T) {
 	c := rt.Get()
 	for i := 0; i < c.N(1, 4); i++ {
-		runCase(t, "real-slow-handler", i, map[string]any{"hold": 3, "handler_busy": "3.3s", "remote": "KEEPALIVE every 600 ms"}, func() rt.Result { return slowHandlerCase(i) })
+		runCase(t, "real-slow-handler", i, map[string]any{"hold": 3, "handler_busy": "3.3s", "remote": "KEEPALIVE every 600 ms"}, func() rt.Result {
+			// a run during which the machine stalled says nothing: try again, three times at most
+			res := slowHandlerCase(i)
+			for try := 1; try < 3 && res.Verdict == "inconclusive"; try++ {
+				res = slowHandlerCase(i + 50*try)
+			}
+			return res
+		})
 	}
 }
 
